@@ -204,7 +204,7 @@ Finish(recs) ==
 \* the run ended with an error before any result: allowed only when the marker table is
 \* unusable in one of the ways of C08 (C01: everything else is mapped without error)
 FailErr == IF ~(phase = "run" /\ nextRow = 0) THEN 131
-           ELSE IF errs = {} THEN 130 ELSE 0
+           ELSE IF errs = {} /\ ~MayFail(R, RunTable(run.table, run.flat), QG) THEN 130 ELSE 0
 Fail == /\ FailErr = 0 /\ phase' = "failed"
         /\ UNCHANGED <<run, R, recon, nextRow, cur, asg, vk, errs>>
 
